@@ -2,11 +2,10 @@
    selection set (rf_flatten: one unit of fuel per selection and per level of fragment nesting) and its evaluation
    (rf_selset / rf_field / rf_complete: one call per level, per list wrapper and per non-null wrapper), with the
    same fuel ex_fuel_for as the executor model.  The list depth of the type the reference completes a field with
-   (the type on the object type) is bounded by the document because, outside known_covariant, it is the type the
-   typed document carries. *)
+   (the type on the object type) is bounded by the schema's largest field type (ex_schema_field_ty_max). *)
 From Coq Require Import ZArith Lia List.
 From ApolloVerif Require Import Base.Chars Ast.Ast Schema.Model Run.Json Run.JsonLemmas Run.Coerce Run.CoerceProofs
-  Run.TypedDoc Run.Prog Run.Execute Run.ExecTop Run.RefExecute Run.ExecKnown Run.ExecProofs Run.ExecRefDefs
+  Run.TypedDoc Run.Prog Run.Execute Run.ExecTop Run.RefExecute Run.ExecProofs Run.ExecRefDefs
   Run.ExecRefInv Run.ExecRefFuel Run.ExecRefCollect Run.ExecRefTyping Run.ExecRefProp Run.ExecRefSim.
 Import ListNotations.
 Local Open Scope nat_scope.
@@ -83,9 +82,9 @@ Let cx := ex_cx_for s d vars.
 Let e := {| rf_s := s; rf_frags := rd_frags d; rf_vars := vars; rf_w := w; rf_cx := cx |}.
 Hypothesis Hu : sch_names_unique s.
 Hypothesis Hm : sch_no_meta_fields s.
-Hypothesis Hcov : known_covariant s d = false.
+Hypothesis Hcv : sch_impl_covariant s = true.
 Hypothesis Hfr : frags_typed s (rd_frags d).
-Let maxty := rd_max rsl_max_ty d.
+Let maxty := ex_ty_max s d.
 Let c := 2 * maxty + 8.
 
 Notation tsel := (tsel_ok s d).
@@ -117,7 +116,7 @@ Definition PB_selset (fuel : nat) : Prop :=
 Definition PB_field (fuel : nat) : Prop :=
   forall otn oimpls oid fdef f0 rest m, ex_get_object s otn = Some oimpls ->
     Forall (field_ok d (S m)) (f0 :: rest) -> Forall (tfield otn oimpls) (f0 :: rest) ->
-    td_type_field s otn (rs_name f0) = Some fdef -> Forall (fun g => rs_dty g = fd_ty fdef) (f0 :: rest) ->
+    td_type_field s otn (rs_name f0) = Some fdef -> Forall (narrowed_by s (fd_ty fdef)) (f0 :: rest) ->
     mergeable (flat_map rs_sels (f0 :: rest)) ->
     m * c + 3 + 2 * maxty <= fuel ->
     rt_out_of_fuel (rf_field fuel e otn oid fdef (f0 :: rest)) = false.
@@ -132,7 +131,7 @@ Lemma ty_fuel_nullable t : is_non_null t = true -> S (ty_fuel (rf_nullable t)) =
 Proof. destruct t; cbn; try discriminate; intros _; lia. Qed.
 
 Lemma fields_at_nullable otn oimpls t fields : fields_at s d otn oimpls t fields -> fields_at s d otn oimpls (rf_nullable t) fields.
-Proof. unfold fields_at. intros H. eapply Forall_impl; [|exact H]. intros g [G1 G2]. split; [exact G1|]. rewrite G2. destruct t; reflexivity. Qed.
+Proof. unfold fields_at. intros H. eapply Forall_impl; [|exact H]. intros g [G1 G2]. split; [exact G1|]. destruct t; exact G2. Qed.
 
 Lemma ref_fuel_step fuel :
   PB_selset fuel /\ PB_field fuel /\ PB_complete fuel ->
@@ -167,21 +166,21 @@ Proof.
     assert (Hnames : Forall (fun g => rs_name g = rs_name f0) (f0 :: rest)).
     { apply Forall_forall. intros g Ig. rewrite Forall_forall in Hreach.
       apply (mergeable_names s (rd_frags d) sels otn oimpls g f0 Hmg Hg); [now apply Hreach|exact C0|]. apply Hkeys; [exact Ig|now left]. }
-    pose proof (group_types s d Hu Hm Hcov otn oimpls f0 rest fdef Hg Hok Hnames Et) as Hty.
+    pose proof (group_types s d Hu Hm Hcv otn oimpls f0 rest fdef Hg Hok Hnames Et) as Hty.
     assert (Hmg' : mergeable (flat_map rs_sels (f0 :: rest))).
     { apply (mergeable_sub s (rd_frags d) sels otn oimpls (f0 :: rest) Hmg Hg); [discriminate|exact Hreach|exact Hkeys]. }
     apply (IHf otn oimpls oid fdef f0 rest m Hg); auto. unfold c in *. lia.
   - (* rf_field *)
     intros otn oimpls oid fdef f0 rest m Hg Hfo Hok Ht Hty Hmg Hm'. cbn [rf_field]. cbn [e rf_cx rf_s rf_w].
-    inversion Hfo as [|? ? H0 _]; subst. destruct H0 as (Hfld & Hd & _). inversion Hty as [|? ? Ht0 _]; subst.
+    inversion Hfo as [|? ? H0 _]; subst. destruct H0 as (Hfld & Hd & _).
     pose proof (coerce_args_fuel s d vars otn fdef f0 Ht Hd) as Hca. fold cx in Hca.
     destruct (ex_coerce_args cx fdef f0) as [args|cl|]; [|reflexivity|contradiction].
     destruct (streq (rs_name f0) td_typename); [reflexivity|].
     destruct ((streq (rs_name f0) td_schema || streq (rs_name f0) td_type) && td_is_query_root s otn); [reflexivity|].
     assert (Hcomp : forall r, rt_out_of_fuel (rf_complete fuel e (fd_ty fdef) r (f0 :: rest)) = false).
     { intros r. apply (IHc _ _ otn oimpls _ _ m Hfo); [|exact Hmg|].
-      - unfold fields_at. rewrite Forall_forall in Hok, Hty |- *. intros g Hin. split; [now apply Hok|]. now rewrite (Hty g Hin).
-      - pose proof (doc_node_ty_size d f0 Hd Hfld) as Hsz. rewrite Ht0 in Hsz. unfold ty_fuel, maxty in *.
+      - unfold fields_at. rewrite Forall_forall in Hok, Hty |- *. intros g Hin. split; [now apply Hok|]. now apply Hty.
+      - pose proof (type_field_ty_size s otn _ fdef Ht) as Hsz. unfold ty_fuel, maxty, ex_ty_max in *.
         destruct (is_non_null (fd_ty fdef)); lia. }
     destruct (world_resolve w {| ec_obj := oid; ec_field := rs_name f0; ec_args := args |}); try apply Hcomp. reflexivity.
   - (* rf_complete *)
@@ -211,7 +210,7 @@ Proof.
         destruct Ho as (_ & -> & Hgo & Happ).
         apply (IHs tn oimpls' id _ m Hgo).
         -- now apply sub_sels_ok.
-        -- eapply sub_typed; [|exact Happ]. exact Hfa.
+        -- eapply sub_typed; [|exact Hgo|exact Happ]. exact Hfa.
         -- exact Hmg.
         -- unfold ty_fuel in Hm'. cbn [cv_ty_size is_non_null] in Hm'. lia.
     + (* list *)
@@ -221,7 +220,7 @@ Proof.
         assert (Hitems : existsb rt_out_of_fuel (map (fun it => rf_complete fuel e inner it (f0 :: rest)) (rv_ok_prefix items)) = false).
         { induction (rv_ok_prefix items) as [|it l IHl]; [reflexivity|]. cbn [map existsb]. apply orb_false_iff. split; [|exact IHl].
           apply (IHc _ _ otn oimpls _ _ m Hfo); [|exact Hmg|].
-          - unfold fields_at in *. eapply Forall_impl; [|exact Hfa]. intros g [G1 G2]. split; [exact G1|]. now rewrite G2.
+          - unfold fields_at in *. eapply Forall_impl; [|exact Hfa]. intros g [G1 G2]. split; [exact G1|]. exact G2.
           - unfold ty_fuel in *. cbn [cv_ty_size is_non_null] in Hm'. destruct (is_non_null inner); lia. }
         destruct (rv_has_err items); exact Hitems.
 Qed.
